@@ -348,6 +348,119 @@ var signs = []func(i int) (float64, float64){
 	func(i int) (float64, float64) { s := float64(1 - 2*((i/2)%2)); return s, -s },
 }
 
+
+// seqs returns the vertex sequences g holds at its own level (the line, the
+// points of a multi-point, the members of a multi-line string, the rings of a
+// polygon) and a constructor that rebuilds g from edited sequences.
+func seqs(g geom.Geom) ([][]geom.Point, bool, func([][]geom.Point) geom.Geom) {
+	cp := func(p []geom.Point) []geom.Point { return append([]geom.Point{}, p...) }
+	switch t := g.(type) {
+	case geom.LineString:
+		return [][]geom.Point{cp(t)}, false, func(x [][]geom.Point) geom.Geom { return geom.LineString(x[0]) }
+	case geom.MultiPoint:
+		return [][]geom.Point{cp(t)}, false, func(x [][]geom.Point) geom.Geom { return geom.MultiPoint(x[0]) }
+	case geom.MultiLineString:
+		o := make([][]geom.Point, len(t))
+		for i := range t {
+			o[i] = cp(t[i])
+		}
+		return o, false, func(x [][]geom.Point) geom.Geom {
+			m := make(geom.MultiLineString, len(x))
+			for i := range x {
+				m[i] = x[i]
+			}
+			return m
+		}
+	case geom.Polygon:
+		o := make([][]geom.Point, len(t))
+		for i := range t {
+			o[i] = cp(t[i])
+		}
+		return o, true, func(x [][]geom.Point) geom.Geom {
+			m := make(geom.Polygon, len(x))
+			for i := range x {
+				m[i] = x[i]
+			}
+			return m
+		}
+	}
+	return nil, false, nil
+}
+
+// sameCycle reports whether two rings list exactly the same vertices in the
+// same cyclic order (closing vertex ignored).
+func sameCycle(a, b []geom.Point) bool {
+	if len(a) > 1 && a[0] == a[len(a)-1] {
+		a = a[:len(a)-1]
+	}
+	if len(b) > 1 && b[0] == b[len(b)-1] {
+		b = b[:len(b)-1]
+	}
+	if len(a) != len(b) {
+		return false
+	}
+	if len(a) == 0 {
+		return true
+	}
+	for s := range b {
+		ok := true
+		for i := range a {
+			if a[i] != b[(s+i)%len(b)] {
+				ok = false
+				break
+			}
+		}
+		if ok {
+			return true
+		}
+	}
+	return false
+}
+
+// vertexCountVariants: in every vertex sequence of g every vertex deleted,
+// doubled, a midpoint inserted after it (the counts differ: false), and every
+// two neighbours exchanged when they are further apart than the tolerance (two
+// vertices displaced: false, unless a ring keeps its cyclic order).
+func vertexCountVariants(g geom.Geom, tol float64, add func(geom.Geom, bool, string)) {
+	ss, ring, mk := seqs(g)
+	_, isMP := g.(geom.MultiPoint)
+	for si := range ss {
+		n := len(ss[si])
+		if n > 40 {
+			continue
+		}
+		with := func(q []geom.Point) geom.Geom {
+			x := make([][]geom.Point, len(ss))
+			for i := range ss {
+				x[i] = append([]geom.Point{}, ss[i]...)
+			}
+			x[si] = q
+			return mk(x)
+		}
+		for v := 0; v < n; v++ {
+			s := ss[si]
+			add(with(append(append([]geom.Point{}, s[:v]...), s[v+1:]...)), false, "vertex-deleted")
+			add(with(append(append(append([]geom.Point{}, s[:v+1]...), s[v]), s[v+1:]...)), false, "vertex-doubled")
+			if v+1 < n {
+				mid := geom.Point{X: (s[v].X + s[v+1].X) / 2, Y: (s[v].Y + s[v+1].Y) / 2}
+				add(with(append(append(append([]geom.Point{}, s[:v+1]...), mid), s[v+1:]...)), false, "vertex-inserted")
+				if isMP {
+					continue
+				}
+				if math.Abs(s[v].X-s[v+1].X) < 3*tol && math.Abs(s[v].Y-s[v+1].Y) < 3*tol {
+					continue
+				}
+				q := append([]geom.Point{}, s...)
+				q[v], q[v+1] = q[v+1], q[v]
+				if ring && sameCycle(q, s) {
+					continue
+				}
+				add(with(q), false, "neighbours-exchanged")
+			}
+		}
+	}
+}
+
 // localVariants derives geometries from g at its own level.
 func localVariants(g geom.Geom, tol float64, salt int) []variant {
 	var out []variant
@@ -388,6 +501,7 @@ func localVariants(g geom.Geom, tol float64, salt int) []variant {
 			}
 		}
 	}
+	vertexCountVariants(g, tol, add)
 	// the closing vertex of a closed ring displaced on its own
 	if pg, ok := g.(geom.Polygon); ok {
 		for ri, r := range pg {
@@ -586,7 +700,7 @@ func main() {
 		return
 	}
 	rep = report.New("C15", tier, "model_checking")
-	rep.Rule = "E1: 37 base geometries of all eight types (collections nested 40 and 100 deep; boxes also flat: the bounds of a vertical / horizontal line and of a point; axis-aligned and general-position rings, closed and unclosed, a ring visiting one vertex twice, sliver rings thinner than the tolerance, multi-geometries of 33..64 members, multi-geometries holding the same member twice, distinct members sharing one bounding box, nested collections, empty geometries) whose members are >= 90 apart, tol in {1e-3, 0.1}, and the same geometries shifted by (2e7,-3e7) with tol 1e-9 (below the float spacing there); for each every derived h: identity; all coordinates perturbed by +-tol/2 in 6 sign patterns (expected true); every permutation of members combined with perturbation (true); every start rotation of closed rings (true); all coordinates perturbed by 0.9 tol (true); every single coordinate displaced by 2*tol and by 1.2*tol, incl. the closing vertex of a closed ring on its own (false); every member deleted / duplicated at every position (false); every line / line member reversed (false); change of type with identical vertices (false); and, for containers, every such derivation applied to every member with the other members unchanged (nested to depth 2: rings permuted inside a multi-polygon member, members of a nested collection, ...). Every pair is evaluated in both directions (symmetry), and again twice with both operands cut from flat vertex buffers (same answers, buffers not written). Non-trivial = every derivation other than identity."
+	rep.Rule = "E1: 37 base geometries of all eight types (collections nested 40 and 100 deep; boxes also flat: the bounds of a vertical / horizontal line and of a point; axis-aligned and general-position rings, closed and unclosed, a ring visiting one vertex twice, sliver rings thinner than the tolerance, multi-geometries of 33..64 members, multi-geometries holding the same member twice, distinct members sharing one bounding box, nested collections, empty geometries) whose members are >= 90 apart, tol in {1e-3, 0.1}, and the same geometries shifted by (2e7,-3e7) with tol 1e-9 (below the float spacing there); for each every derived h: identity; all coordinates perturbed by +-tol/2 in 6 sign patterns (expected true); every permutation of members combined with perturbation (true); every start rotation of closed rings (true); all coordinates perturbed by 0.9 tol (true); every single coordinate displaced by 2*tol and by 1.2*tol, incl. the closing vertex of a closed ring on its own (false); every member deleted / duplicated at every position (false); in every line, ring and multi-point every vertex deleted, doubled, a midpoint inserted after it, and (lines, rings) every two neighbours exchanged (false); every line / line member reversed (false); change of type with identical vertices (false); and, for containers, every such derivation applied to every member with the other members unchanged (nested to depth 2: rings permuted inside a multi-polygon member, members of a nested collection, ...). Every pair is evaluated in both directions (symmetry), and again twice with both operands cut from flat vertex buffers (same answers, buffers not written). Non-trivial = every derivation other than identity."
 	cat := catalogue()
 	if tier == "thorough" {
 		cat = append(cat, generated()...)
